@@ -103,6 +103,37 @@ CHECKS = {
                 'emits every held leaf; message-level order (needs Model/Message.v).',
         'technique': 'Coq proof of leaf/field preservation of the parser model + model differential + message oracle',
     },
+    'C17': {
+        'text': 'Proof (Coq), structural: in the model every entry point takes the configuration of process-wide defaults '
+                'explicitly and consults it exactly where the code calls get_default_*; with explicit version, level and '
+                'delimiters the result is independent of the configuration (C17_*_independent), an omitted argument does '
+                'read it (C17_omitted_argument_reads_default), and set_default_* is a function on configurations that '
+                'cannot touch existing elements. That the CODE forwards explicit arguments at every call site is checked '
+                'by running a corpus of explicit calls under 30 (thorough: 72) default configurations and by comparing '
+                'the configuration-free model with hl7apy running under hostile defaults.',
+        'design_ref': 'DESIGN.md section 7 C17',
+        'note': 'Trusted: Coq kernel + vm_compute; translators; harness c17.py. No axioms. The independence theorems are '
+                'true by construction of the model; the tie to the code is the differential under non-default '
+                'configurations. A parentless element encoded or assigned text WITHOUT explicit delimiters reads the '
+                'current default by design (documented, not flagged).',
+        'technique': 'Coq model with explicit configuration + independence theorems + differential under many default '
+                     'configurations',
+    },
+    'C18': {
+        'text': 'Partial proof. For every reference (standard entry or profile), text, delimiter set and level: the '
+                'Segment structure is the given reference\'s (C18_segment_structure_from_reference), every Field the '
+                'parser creates receives the sub-reference of its parent\'s reference and takes datatype and structure '
+                'from it (C18_fields_take_parent_subreference, C18_field_structure_from_reference), restating the '
+                'standard entry is a no-op (C18_restating_noop). Profiles synthesised from every version\'s segments '
+                '(1-3 constraint edits) run through hl7apy and, as inline references, through the Coq model (trees '
+                'compared); the oracle checks datatype read-back, profile-driven validate() verdicts, restating, '
+                'MessageProfileNotFound/LegacyMessageProfile and message-level one-edit profiles.',
+        'design_ref': 'DESIGN.md section 7 C18',
+        'note': 'Trusted: Coq kernel + vm_compute; translators; harness c18.py/segcorr.py. No axioms. Creation through '
+                'traversal/add_* helpers and the validator\'s use of the profile are covered by the oracle here and by '
+                'the heap / validator models elsewhere; the message level is oracle-only.',
+        'technique': 'Coq proof that the parser model threads the given reference + differential on synthesised profiles',
+    },
 }
 
 NOT_YET = {}
